@@ -39,7 +39,9 @@ class C17(Check):
             r0 = rng.random()
             if r0 < 0.08:
                 scn["event"] = {"k": "error", "name": "union-offset", "def": rng.choice(keys), "seed": rng.randrange(1 << 30)}
-            elif r0 < 0.2:
+            elif r0 < 0.14:
+                scn["event"] = {"k": "error", "name": "bad-extent", "def": rng.choice([k for k in keys if T.is_service(uni.defs[k])] * 3 + keys), "seed": rng.randrange(1 << 30)}
+            elif r0 < 0.24:
                 scn["event"] = {"k": "error", "name": "foreign-attr", "def": rng.choice(keys), "seed": rng.randrange(1 << 30)}
             elif r0 < 0.6:
                 names = [n for n, v in MU.RAW.items() if v[2] == "reject"] + sorted(MU.LAZY) + sorted(MU.FINAL)
@@ -92,6 +94,22 @@ class C17(Check):
                 j = rr.randrange(1, len(fidx))  # the raw line goes right before field number j (>= 1 variant precedes it)
                 s0["items"].insert(fidx[j], ["raw", "@assert _offset_.count >= 1", []])
                 sites.append((ev["def"], "%d:%d" % (si, fidx[j] + 1), None, "lazy"))
+                return ws, sites
+            if ev["name"] == "bad-extent":
+                # an @extent that is too small or not a multiple of 8: detected when the schema is finalised; a reported line, if
+                # any, must be the line of THAT directive (a service has two of them)
+                rr = random.Random(ev["seed"])
+                res0 = T.Resolver(dict(uni.defs))
+                si = rr.randrange(len(d["secs"]))
+                inner = T.Sec(res0, d, si).inner_extent
+                bad = rr.choice([inner - 8, inner + 4, inner + 1] if inner >= 8 else [4, 12, 1])
+                d["secs"][si]["seal"] = "@extent %d" % bad
+                if len(d["secs"]) == 2:
+                    # the other section gets a (valid) extent of its own, so that there are two directives to confuse
+                    oi = 1 - si
+                    other = T.Sec(res0, d, oi).inner_extent
+                    d["secs"][oi]["seal"] = "@extent %d" % (other + 8 * rr.choice([0, 1, 3]))
+                sites.append((ev["def"], "%d:seal" % si, None, "seal-line"))
                 return ws, sites
             if ev["name"] == "foreign-attr":
                 # an expression that asks ANOTHER (valid, visible) composite type for an attribute it does not have: the offending
@@ -234,6 +252,9 @@ class C17(Check):
                         if line != want_line:
                             out.fail("C17.err-line", "read %d: %s (%s) on line %s of %s reported at line %s (reached as %s; followed by %s)" % (
                                 i, scn["event"]["name"], klass, want_line, want_file, line, how, follows), "line:%s:%s" % (klass, "none" if line is None else "wrong"))
+                    elif klass == "seal-line":
+                        if line is not None and line != want_line:
+                            out.fail("C17.err-line", "read %d: invalid extent declared on line %s of %s reported at line %s (reached as %s)" % (i, want_line, want_file, line, how), "line:extent:wrong")
                     elif klass == "either":
                         seal_line = w.lmaps[key].get(tag.split(":")[0] + ":seal")
                         if line not in (want_line, seal_line):
